@@ -4,6 +4,7 @@ import (
 	"encoding/json"
 	"fmt"
 	"math/rand"
+	"time"
 
 	"verif/harness/synth"
 )
@@ -329,5 +330,28 @@ func checkC18(c *Ctx) (int, error) {
 	for _, st := range streams[:minInt(3, len(streams))] {
 		c.ev.sample(descJSON(st))
 	}
-	return c.readerRun("c18", cases, true)
+	n, err := c.readerRun("c18", cases, true)
+	if err != nil || n > 0 {
+		return n, err
+	}
+	// the compressor half: the same writer cases at every acceleration level
+	cfg := genCfg(`"flate"`, []int{1, 2}, 3, 0, false, []string{"Write", "Flush"}, "")
+	behs, err := c.Behaviours("WriterModel", "GEN_C18.cfg", map[string]string{"GEN_C18.cfg": cfg}, 10*time.Minute)
+	if err != nil {
+		return 0, err
+	}
+	per := 3
+	if c.Tier == "thorough" {
+		per = 12
+	}
+	wcases, err := c.histCases("C18w", behs, rng, accelSettings, per, []Op{{Op: "C"}}, nil)
+	if err != nil {
+		return 0, err
+	}
+	for i, cs := range wcases {
+		if i%2 == 0 {
+			cs.Data.Class = []string{"pruns", "text", "tokendense", "runs"}[(i/2)%4]
+		}
+	}
+	return c.writerRun("c18w", c.spreadArch(wcases, true), false)
 }
